@@ -72,11 +72,8 @@ def dEPkg (p : Package) : List String :=
     else if (contentTypeOf p part.name).isNone then some s!"part {part.name} has no content type" else none) ++
   (p.filterMap fun part => if part.isXml ∧ part.xml.isNone then some s!"part {part.name} is not well-formed XML" else none) ++
   (p.flatMap fun part =>
-    if part.name.endsWith ".rels" then
-      let segs := splitPath part.name
-      let src := match segs.reverse with
-        | f :: _ :: d => "/".intercalate (d.reverse ++ [(f.dropEnd 5).toString])
-        | _ => ""
+    if isRelsNameL part.name.toList then
+      let src := String.ofList (relsSourceL part.name.toList)
       let rs := relsOf p src
       let ids := rs.map (·.id)
       (if ids.eraseDups.length = ids.length then [] else [s!"{part.name}: duplicate relationship ids"]) ++
